@@ -183,6 +183,17 @@ CoreItem(f, p, i) ==
                   <<i, 0>>, [k \in 1..w |-> k])
     IN down     \* <<position in the reordered vector, value>>
 CoreItems(f, p) == [i \in 1..CoreLen(f, p) |-> CoreItem(f, p, i - 1)[2]]
+\* the same walk with the value as the SET of its set bit positions (items that do not fit a TLC integer: up to 64 levels)
+CoreItemSet(f, p, i) ==
+    LET w == CoreWidth(f, p) lp == CoreLevelPos(f, p)
+        down == FoldLeft(LAMBDA acc, k :
+                    LET bp == lp[k] idx == acc[1] IN
+                    IF RawBit(f, bp + 1, idx)
+                    THEN <<(BVLen(f, bp) - Cardinality(BVOnes(f, bp))) + CoreRank(f, bp, idx), acc[2] \cup {w - k}>>
+                    ELSE <<idx - CoreRank(f, bp, idx), acc[2]>>,
+                  <<i, {}>>, [k \in 1..w |-> k])
+    IN down[2]
+CoreItemSets(f, p) == [i \in 1..CoreLen(f, p) |-> CoreItemSet(f, p, i - 1)]
 
 (* Plain wavelet matrix: length, core, `first` packed to minimal width *)
 WMCorePos(p) == p + 1
@@ -252,6 +263,15 @@ EncCore(vals) ==
                   IN [cur |-> zeros \o ones, out |-> acc.out \o EncBV([i \in 1..Len(cur) |-> bit(i)])],
                 [cur |-> vals, out |-> << >>], [k \in 1..w |-> k])
     IN [file |-> <<Nat2E(w)>> \o lv.out, sorted |-> lv.cur]
+\* vals: sequence of sets of bit positions, w levels (w = 1 + the highest position; at least 1)
+EncCoreSets(vals, w) ==
+    LET lv == FoldLeft(LAMBDA acc, k :
+                  LET cur == acc.cur
+                      zeros == SelectSeq(cur, LAMBDA x : (w - k) \notin x)
+                      ones == SelectSeq(cur, LAMBDA x : (w - k) \in x)
+                  IN [cur |-> zeros \o ones, out |-> acc.out \o EncBV([i \in 1..Len(cur) |-> (w - k) \in cur[i]])],
+                [cur |-> vals, out |-> << >>], [k \in 1..w |-> k])
+    IN <<Nat2E(w)>> \o lv.out
 EncWM(vals) ==
     LET c == EncCore(vals)
         len == Len(vals)
